@@ -317,6 +317,11 @@ def r4_order(ctx, prog):
             r.inst("get_value_at_path", "recorded path, else the same path with the plural suffix stripped")
         else:
             r.viol("R4:get_value_at_path#retry", "no retry at the merged plural key", file=g.file, line=g.line)
+    from rules import fkeval, absint as _absint
+    try:
+        fkeval.check_plural_path(ctx, r, "R4")
+    except _absint.Unknown as u:
+        r.viol("R4:get_value_at_path#undecided", "cannot be interpreted on the current code (%s): not decided on this tree (fail closed)" % str(u)[:300], file=PM)
     return r
 
 
